@@ -31,12 +31,16 @@ import (
 
 const hangBound = 20 * time.Second
 
+// bystanderNonce is the version nonce of the case's second, established connection.
+const bystanderNonce = uint64(0xb15a4de2b15a4de2)
+
 type seqCase struct {
 	Incoming   bool  `json:"incoming"`
 	Syncing    bool  `json:"syncing"`              // node still in initial block download
 	Handshake  bool  `json:"handshake"`            // a well-formed version message is delivered first
 	Special    bool  `json:"special,omitempty"`    // connection marked "special" (friend / manual)
 	Authorized bool  `json:"authorized,omitempty"` // deliver a valid xauth right after the handshake
+	Bystander  bool  `json:"bystander,omitempty"`  // another peer is connected and has completed its handshake (nonce bystanderNonce)
 	Msgs       []msg `json:"msgs"`
 }
 
@@ -280,7 +284,35 @@ func locksFree(c *network.OneConnection) error {
 		}
 		m.mu.Unlock()
 	}
+	// the mutex of EVERY connection in the list, not only of the one that handled the message: a handler
+	// that walks OpenCons (HandleVersion's nonce scan, inv routing) may have left a bystander locked -
+	// the bystander itself and every later walker of the list would then block for good
+	network.Mutex_net.Lock()
+	var held *network.OneConnection
+	for _, v := range network.OpenCons {
+		if v == c {
+			continue
+		}
+		if !v.Mutex.TryLock() {
+			held = v
+			break
+		}
+		v.Mutex.Unlock()
+	}
+	network.Mutex_net.Unlock()
+	if held != nil {
+		wedged.Store(true)
+		return fmt.Errorf("the mutex of another connection in OpenCons (ConnID %d, %s) is still held", held.ConnID, held.PeerAddr.Ip())
+	}
 	return nil
+}
+
+// walkOpenCons does what the main thread does all the time: it walks the connection list (here: routing
+// an inv), which takes Mutex_net and every connection's mutex in turn.  It must return.
+func walkOpenCons() error {
+	return guarded("a walk over the connection list (network.NetRouteInvExt)", func() {
+		network.NetRouteInvExt(network.MSG_TX, btc.NewUint256(make([]byte, 32)), nil, 0)
+	})
 }
 
 // unexportedLocksFree probes the mutexes that are not exported (config, peers DB, chain tree end, bandwidth).
@@ -395,6 +427,10 @@ func resolve(e *envT, c *network.OneConnection, m *msg) []byte {
 			n := network.VerifNonce()
 			copy(pl[72:80], n[:])
 		}
+	case "ver_peernonce":
+		if len(pl) >= 80 {
+			copy(pl[72:80], le64(bystanderNonce))
+		}
 	case "xauth_sign":
 		if len(pl) >= 33 {
 			out := append([]byte{}, pl[:33]...)
@@ -427,6 +463,7 @@ var _ = big.NewInt
 type stepStats struct {
 	msgs, reached, nontrivial int
 	fullBlockRequested        bool // a getdata for a full block went to this peer (in-progress entry without collector)
+	sameNonce                 int  // version messages carrying the nonce of the established bystander connection
 	namedInProgress           int  // blocktxn / block / cmpctblock messages naming a block that is in progress on this connection
 }
 
@@ -438,10 +475,33 @@ func runSeq(cs seqCase, st *stepStats) (err error) {
 	e := getEnv()
 	e.reset(cs.Syncing)
 	serial := 0
+	var by *network.OneConnection
+	if cs.Bystander {
+		by = newConn(true, false, 200)
+		v := network.VerifNewMsg("version", goodVersion(bystanderNonce, "/Satoshi:25.0.0/", baseBlocks), false, false)
+		if err := guarded("handshake of the bystander connection", func() { dispatch(by, v) }); err != nil {
+			return err
+		}
+		if !by.X.VersionReceived || by.IsBroken() {
+			return fmt.Errorf("harness: the bystander's handshake was refused")
+		}
+		by.Mutex.Lock()
+		by.SendBufCons = by.SendBufProd
+		by.Mutex.Unlock()
+	}
 	c := newConn(cs.Incoming, cs.Special, serial)
 	defer func() {
 		if err == nil {
+			err = walkOpenCons() // once per case: the list can still be walked
+			if err == nil {
+				err = locksFree(c)
+			}
+		}
+		if err == nil {
 			releaseConn(c)
+			if by != nil {
+				releaseConn(by)
+			}
 		} else if lerr := locksFree(nil); lerr != nil {
 			// a panic (or hang) that also left a global mutex locked: say so, and stop using this process
 			err = fmt.Errorf("%v\n(and %v)", err, lerr)
@@ -488,6 +548,9 @@ func runSeq(cs seqCase, st *stepStats) (err error) {
 			c.Mutex.Unlock()
 		}
 		plBytes += uint64(len(pl))
+		if st != nil && by != nil && m.Cmd == "version" && !c.X.VersionReceived && len(pl) >= 80 && binary.LittleEndian.Uint64(pl[72:80]) == bystanderNonce {
+			st.sameNonce++
+		}
 		if st != nil {
 			st.msgs++
 			if m.Cmd == "version" && !c.X.VersionReceived || m.Cmd != "version" && c.X.VersionReceived {
@@ -589,7 +652,7 @@ var errReconnect = fmt.Errorf("reconnect")
 var depthCounters = []string{"HeaderNew", "HeaderFresh", "HeaderOld", "NetBlock-Queued", "NetBlock-CachedA", "UnxpectedBlockNEW", "TxAccepted",
 	"Tx Procesed", "TxInputInMemory", "PreCheckBlockFail", "GetHeadersBadBlock", "GetHeadersOrphBlk", "GetblksMissed", "GetdataBlockSw",
 	"GetdataTxSw", "GetdataCmpctBlk", "AddrNewYES", "AddrUpdated", "PongOK", "InvBlockNew", "InvBlockFresh", "BlkTxnIncomplete",
-	"ShortIDUnknown", "TrustedMsg-Tx", "TrustedMsg-Block", "BanMisbehave", "PeersBanned", "EmptyHeadersRcvd", "CmpctBlockMaxInProg"}
+	"ShortIDUnknown", "BanVerSameNonce", "UnxpBlockTxnA", "UnxpBlockTxnB", "BlkTxnSameRcvd", "TrustedMsg-Tx", "TrustedMsg-Block", "BanMisbehave", "PeersBanned", "EmptyHeadersRcvd", "CmpctBlockMaxInProg"}
 
 func harvestCounters() {
 	common.CounterMutex.Lock()
@@ -620,7 +683,20 @@ func genSeqCase(t *rapid.T) seqCase {
 		Special:   g.chance(5),
 	}
 	cs.Authorized = cs.Handshake && g.chance(20)
+	cs.Bystander = g.chance(35)
 	cs.Msgs = g.sequence(30)
+	if cs.Bystander && g.chance(40) {
+		// a well-formed version that repeats the bystander's nonce; it is what HandleVersion's scan over the
+		// other connections looks for.  Before the handshake it goes first; after a handshake it only gets
+		// to the handler if an earlier message of the case ended the first connection.
+		v := msg{Cmd: "version", Pl: hex.EncodeToString(goodVersion(1, pick(g, []string{"/Satoshi:26.0.0/", "/Gocoin:1.10.5/", ""}), baseBlocks)), Kind: "wf", Dyn: "ver_peernonce"}
+		if !cs.Handshake {
+			cs.Msgs = append([]msg{v}, cs.Msgs...)
+		} else {
+			i := g.n(0, len(cs.Msgs), "vpos")
+			cs.Msgs = append(cs.Msgs[:i], append([]msg{v}, cs.Msgs[i:]...)...)
+		}
+	}
 	if cs.Authorized {
 		for i := range cs.Msgs {
 			if g.chance(30) {
@@ -642,6 +718,9 @@ func classify(r *pbt.Run, cs seqCase) {
 	}
 	if cs.Syncing {
 		r.Class("syncing")
+	}
+	if cs.Bystander {
+		r.Class("bystander_connection")
 	}
 	seenCmd := map[string]bool{}
 	seenKind := map[string]bool{}
@@ -693,6 +772,9 @@ func TestHandlerSequences(t *testing.T) {
 		if st.nontrivial > 0 {
 			r.NonTrivial()
 			r.Class("nontrivial")
+		}
+		if st.sameNonce > 0 {
+			r.Class("version/same_nonce_as_bystander")
 		}
 		if st.fullBlockRequested {
 			r.Class("state/full_block_requested_from_peer")
